@@ -149,6 +149,8 @@ def default_source(kind, mode):
     src = K.get("mut", K.get("lit"))
     if mode == "attr_default":
         return f" = Attr(default={src})"
+    if mode == "attr_dnc":
+        return f" = Attr(default={src}, do_not_copy=True)"  # the attribute opts out of copying in its own declaration
     if mode == "attr_noinit":
         return f" = Attr(default={src}, init=False)"  # (not in DEFAULT_MODES: the constructor takes no such keyword)
     if mode == "attr_factory":
@@ -231,13 +233,16 @@ def class_source(rec):
     if inherit in ("spec_sub_add", "two_levels") and len(attrs) > 1:
         base_attrs, sub_attrs = attrs[:-1], attrs[-1:]
 
-    def deco(extra=None, skip_key=False):
+    def deco(extra=None, skip_key=False, sub=False):
         args = []
         if o.get("key") and not skip_key:
             args.append(f"key={o['key']!r}")
-        if o.get("frozen"):
+        inherit_policy = sub and o.get("sub_inherits_policy")  # the subclass states neither frozen nor do_not_copy: both are inherited
+        if o.get("frozen") and not inherit_policy:
             args.append("frozen=True")
-        if o.get("do_not_copy") is True:
+        if inherit_policy:
+            pass
+        elif o.get("do_not_copy") is True:
             args.append("do_not_copy=True")
         elif o.get("do_not_copy"):
             args.append(f"do_not_copy={list(o['do_not_copy'])!r}")
@@ -296,13 +301,13 @@ def class_source(rec):
         lines += [deco(), f"class {name}:"] + body(attrs)
     elif inherit == "spec_sub_add":
         lines += [deco(), f"class {name}Base:"] + body(base_attrs, with_hooks=False)
-        lines += ["", deco(), f"class {name}({name}Base):"] + body(sub_attrs)
+        lines += ["", deco(sub=True), f"class {name}({name}Base):"] + body(sub_attrs)
     elif inherit == "spec_sub_redefault":
         # subclass re-declares the first attribute's default as a plain class attribute (not the owner)
         lines += [deco(), f"class {name}Base:"] + body(attrs, with_hooks=False)
         a0 = attrs[0]
         K = KINDS[a0["kind"]]
-        lines += ["", deco(), f"class {name}({name}Base):", f"    {attr_name(a0)} = {REDEFAULT_SRC[a0['kind']]}"]
+        lines += ["", deco(sub=True), f"class {name}({name}Base):", f"    {attr_name(a0)} = {REDEFAULT_SRC[a0['kind']]}"]
         if o.get("post_init"):
             lines += ["    def __post_init__(self):", "        CB.hit('post_init')"]
         if o.get("post_copy"):
@@ -335,7 +340,7 @@ def class_source(rec):
         names = [attr_name(a) for a in attrs]
         mine = o.get("do_not_copy") if isinstance(o.get("do_not_copy"), list) else []
         flipped = [n for n in names if n not in mine]
-        lines += ["", f"@spec_class(do_not_copy={flipped!r})" if flipped else "@spec_class", f"class {name}Flip({name}):", "    pass",
+        lines += ["", f"@spec_class(do_not_copy={flipped!r})" if flipped else "@spec_class(do_not_copy=False)", f"class {name}Flip({name}):", "    pass",
                   f"{name}Flip.__spec_class__"]
     return "\n".join(lines) + "\n"
 
@@ -626,6 +631,18 @@ def failing_invalidation_records():
 
 def validated_item_records():
     return [single("evens", "mut"), composite("CompEvens", [("int", "lit"), ("evens", "mut")])]
+
+
+def policy_inheritance_records():
+    """copy policy / frozen-ness that a spec subclass inherits without restating it, and an attribute-level opt-out"""
+    return [
+        {"name": "DncInherited", "attrs": [{"kind": "nums", "default": "mut"}, {"kind": "int", "default": "lit"}, {"kind": "kids", "default": "mut"}],
+         "opts": {"do_not_copy": ["nums"], "inherit": "spec_sub_add", "sub_inherits_policy": True}},
+        {"name": "DncInheritedRedefault", "attrs": [{"kind": "nums", "default": "mut"}, {"kind": "leaf", "default": "mut"}],
+         "opts": {"do_not_copy": ["leaf"], "inherit": "spec_sub_redefault", "sub_inherits_policy": True}},
+        single("nums", "attr_dnc"),
+        {"name": "AttrDncPlusOther", "attrs": [{"kind": "leaf", "default": "attr_dnc"}, {"kind": "nums", "default": "mut"}], "opts": {}},
+    ]
 
 
 def reprepare_records():
